@@ -6,6 +6,8 @@ CONSTANTS
   Free = FALSE
   ReportMeansDead = FALSE
   RemDeadMeansDead = FALSE
+  CacheDeadOnFalse = FALSE
+  RebuildRaises = FALSE
   Hist = TRUE
   Cases <- PlanCases
 INVARIANT PathDump
